@@ -14,18 +14,24 @@ LEVEL = "exploration"
 TECHNIQUE = "runtime monitoring: per-instance init/exec/finalize automaton and per-tick exclusivity over UOD callback log"
 RULE = ("seeded P-code generator with ~45 % UOD command lines (Short/Long/Long2/Other/Drive1/Set1/Fail; Long and Long2 "
         "declared overlapping; durations long_n in 1..8 ticks, Fail raising at iteration 0..3) inside Block/Watch/Alarm/"
-        "Macro structure x scripted FT01 trajectory x a schedule of 0-6 events between ticks (inject code issuing "
-        "commands, user-issued UOD commands, cancel of a running instance, Pause/Hold/Unpause/Unhold, Stop, Restart, "
-        "Start after Stop). distinct = shape hash of method + event kinds; non-trivial = at least 2 command instances "
-        "and at least one conflict (same-name/overlapping request while the older instance is alive), cancel, "
-        "failure or stop with a live instance")
+        "Macro structure, in 15 % of the methods a Stop/Restart line inserted at a random position (also inside "
+        "Watch/Alarm bodies) x scripted FT01 trajectory x a schedule of 0-6 events between ticks (inject code issuing "
+        "commands, cancel_instruction of a running instance, user Pause/Hold/Unpause/Unhold, Stop, Restart, Start after "
+        "Stop). distinct = shape hash of method + event kinds; non-trivial = at least 2 command instances and at least "
+        "one conflict (same-name/overlapping request while the older instance is alive), cancel, failure or stop with a "
+        "live instance")
 ASSUMPTIONS = [
     "'execute' is observed as a call of the command's exec function; an instance is alive from its init call to its "
     "finalize call; callbacks are logged by the rig UOD with cmd.instance_id",
-    "quiescence = System State Stopped after a Stop, or 30 ticks without any callback of that instance while the "
-    "engine keeps ticking (running commands are executed on every tick, also while paused/held)",
+    "quiescence = the tick at which System State becomes Stopped (all instances initialised up to then), or 30 ticks "
+    "without any callback of an instance while the engine keeps ticking (running commands are executed on every tick, "
+    "also while paused/held)",
     "two same-name/overlapping instances that both execute in one tick are reported even when the first was "
     "finalized before the second was initialised (the statement is per tick)",
+    "6 % of the runs also issue UOD commands through execute_control_command_from_user; the statement quantifies over "
+    "methods and injected code only, so anomalies in those runs are counted (unjudged_*), not judged",
+    "request origin/arrival tick and aborted cancellations are observed by recording wrappers on "
+    "CommandRequest.from_user, CommandManager.schedule and Tracking.mark_cancelled (classifiers only)",
 ]
 REQUIRED = {"instances_checked": 300, "exec_events": 1000, "conflicts_older_cancelled": 20, "cancel_requests": 5,
             "stops_with_live_instance": 5, "failed_instances": 5, "quiescence_checks": 100}
@@ -42,7 +48,7 @@ def conflicts(a: str, b: str) -> bool:
 
 
 def plan(tier, seed):
-    n = 2400 if tier == "quick" else 60000
+    n = 2400 if tier == "quick" else 40000
     shards = 16 if tier == "quick" else 48
     return [{"seed": seed * 1000003 + i, "n": n // shards, "max_depth": 3 if tier == "quick" else 4}
             for i in range(shards)]
@@ -156,6 +162,7 @@ def check_case(case, res: Result):
         # user-issued requests whose cancellation aborted inside Tracking.mark_cancelled (NullNode is not cancellable)
         user_cancel_failed = {f[1] for f in CR.CANCEL_MARK_FAILS if f[1] in user_iids and f[2] == "NullNode"}
         reqs = [q for q in CR.REQS if q[1] in UOD_NAMES]
+        all_reqs = list(CR.REQS)
         # instances whose cancellation aborted inside Tracking.mark_cancelled (node.cancel() refused) before finalize
         cancel_aborted = {f[1] for f in CR.CANCEL_MARK_FAILS if f[1] is not None}
     finally:
@@ -289,6 +296,8 @@ def check_case(case, res: Result):
         seen_req[q[2]] = seen_req.get(q[2], 0) + 1
     dup_req = {i for i, c in seen_req.items() if c >= 2}
 
+    stop_race = CR.stop_race_tainted(all_reqs, alive_at_tick_start, name_of, conflicts, UOD_NAMES)
+
     def in_burst(involved):
         return any(i in ids for ids in burst.values() for i in involved)
 
@@ -302,7 +311,10 @@ def check_case(case, res: Result):
             if any(i in user_cancel_failed for i in involved):
                 res.count("unjudged_user_issued_command_cancel_aborted_before_finalize")
             continue
-        if in_burst(involved):
+        if any(i in stop_race for i in involved):
+            # (d) a UOD request queued before a Stop/Restart of the same tick survives the Stop's cancel phase
+            mech = "C11.request_queued_before_stop_in_same_tick"
+        elif in_burst(involved):
             mech = "C11.conflicting_requests_in_one_tick"
         elif any(i in dup_req for i in involved):
             # (c) two CommandRequests were scheduled under one instance id: visit_UodCommandNode takes
@@ -335,8 +347,6 @@ def _live(cmdlog) -> list[str]:
 def _classify_leak(per, iid, stop_tick):
     """An instance initialised in the very tick in which the Stop/Restart performed its cancel phase (the tick before
     System State became Stopped), i.e. a request that sat behind the Stop request in the executing list."""
-    if per[iid][0][0] == stop_tick - 1:
-        return "C11.command_started_in_stop_cancel_tick_never_finalized"
     return "C11.instance_alive_after_stop"
 
 
